@@ -264,9 +264,24 @@ def run_program(ctx, prog):
 
 
 # ----------------------------------------------------------------- reactions
-def _inputs(kind):
+def _inputs(kind, variant=0):
     """(constructor args) triggering exactly `kind`."""
     D = np.array([[1., 2.], [3., 4.]])
+    if kind in ('obsmdsize', 'sampmdsize') and variant % 4:
+        # wrong-sized metadata made only of nulls / empty mappings
+        md = [[None, None, None], [{}], [None, {}, None, {}]][variant % 4 - 1]
+        a = dict(data=D, observation_ids=['o1', 'o2'],
+                 sample_ids=['s1', 's2'])
+        a['observation_metadata' if kind == 'obsmdsize' else
+          'sample_metadata'] = md
+        return a
+    if kind in ('obsdup', 'sampdup') and variant % 2:
+        D = np.array([[1., 2., 0.], [3., 4., 5.], [0., 0., 6.]])
+        a = dict(data=D, observation_ids=['o1', 'o2', 'o3'],
+                 sample_ids=['s1', 's2', 's3'])
+        a['observation_ids' if kind == 'obsdup' else 'sample_ids'] = \
+            ['x', 'y', 'x']
+        return a
     a = dict(data=D, observation_ids=['o1', 'o2'], sample_ids=['s1', 's2'])
     if kind == 'empty':
         a = dict(data=[], observation_ids=[], sample_ids=[])
@@ -296,12 +311,12 @@ def _sites(kind):
     return s
 
 
-def _call_site(ctx, kind, site, trigger):
+def _call_site(ctx, kind, site, trigger, variant=0):
     """Returns a thunk performing the offending (or clean) operation and the
     ids the offending table is expected to carry."""
     Table = ctx.biom.Table
     if site == 'ctor':
-        a = _inputs(kind if trigger else None)
+        a = _inputs(kind if trigger else None, variant)
         return (lambda: Table(**a)), (list(a['observation_ids']),
                                       list(a['sample_ids']))
     base = Table(np.array([[1., 2.], [3., 4.]]), ['o1', 'o2'], ['s1', 's2'])
@@ -353,7 +368,9 @@ def run_reaction(ctx, r, index):
     def cb(t):
         calls.append(t)
     try:
-        thunk, exp_ids = _call_site(ctx, kind, site, trigger)
+        variant = (index // 70)
+        thunk, exp_ids = _call_site(ctx, kind, site, trigger, variant)
+        desc['variant'] = variant % 4
         err.seterr(**dict(others, **{kind: state}))
         for k in KINDS:
             err.seterrcall(k, cb if k == kind else (lambda t: calls.append(
